@@ -45,7 +45,7 @@ def _gen_lemma(args):
                 out["reason"] = f"assumptions of {oname} are unsatisfiable (vacuous lemma)"
                 break
             out["obligations"].append(
-                {"name": f"lemma.{name}::{oname}", "kind": "lemma", "status": "pending", "smt2": smt.export_query(pc, goal), "relaxed": None, "noseq": smt.export_noseq(pc, goal)}
+                {"name": f"lemma.{name}::{oname}", "kind": "lemma", "status": "pending", "smt2": smt.export_query(pc, goal), "relaxed": None, "noseq": smt.export_noseq(pc, goal), "linear": smt.export_linear(pc, goal)}
             )
         if not out["obligations"] and out["status"] != "ERROR":
             out["status"] = "ERROR"
@@ -159,7 +159,7 @@ def main(argv=None):
                     rep = r[2]
                     for oi, ob in enumerate(rep["obligations"]):
                         if ob.get("status") == "pending":
-                            t = ((len(results) - 1, oi), ob.pop("smt2"), ob.pop("relaxed", None), opts["timeout_ms"], opts["cvc5_timeout_ms"], ob.pop("noseq", None))
+                            t = ((len(results) - 1, oi), ob.pop("smt2"), ob.pop("relaxed", None), opts["timeout_ms"], opts["cvc5_timeout_ms"], ob.pop("noseq", None), ob.pop("linear", None), ob.pop("sliced", None))
                             solve_async.append(pool.apply_async(_run, (("solve", t),)))
             # phase 2: collect the solver verdicts
             for ar in solve_async:
